@@ -20,6 +20,10 @@ import PydapModel.Cache
 import Proofs.Cache
 import PydapModel.Consolidate
 import Proofs.Consolidate
+import PydapModel.Transport
+import Proofs.Transport
+import PydapModel.Sessions
+import Proofs.Sessions
 namespace Pydap.C18
 open Pydap Pydap.Proxy
 
@@ -463,5 +467,214 @@ example : ∀ g ∈ exFiles, ∃ r, g.path = '/' :: r := by
   · exact ⟨_, rfl⟩
   · exact ⟨_, rfl⟩
 example : 1 ∉ slabSel 3 (0, 1, 0) ∧ slabSel 3 (0, 1, 2) = [0, 1, 2] ∧ slabSel 5 (0, 1, 2) = [0, 1, 2] := by decide
+
+/-! ### several sessions in one process -/
+-- model: PydapModel/Sessions.lean — a process is a list of sessions; `create_session` gives every session its own
+-- backend object, `patch_session_for_shared_dap_cache` installs the key closure on THAT object
+
+/-- **Consolidation is per session — every process state, every interleaved history, every session j.**
+    What session `j` sees (per GET handed to it: request, key, hit/miss, answer) in a history in which the other
+    sessions read and are consolidated in between is exactly what it sees in the history with all events of the other
+    sessions removed; and session `j` ends in the same state (caching flag, installed key function, store). -/
+theorem C18_consolidation_is_per_session {ρ : Type} (orig : List Char → List Char) (server : CK.Req → ρ)
+    (p : Sessions.Proc ρ) (evs : List Sessions.Ev) (j : Nat) :
+    Sessions.traceOf j (Sessions.run orig server p evs).1 =
+        Sessions.traceOf j (Sessions.run orig server p (evs.filter (Sessions.concerns j))).1 ∧
+      (Sessions.run orig server p evs).2[j]? = (Sessions.run orig server p (evs.filter (Sessions.concerns j))).2[j]? :=
+  ⟨(Sessions.run_local orig server j evs p p rfl rfl).1, (Sessions.run_local orig server j evs p p rfl rfl).2.2⟩
+
+/-- one step: `consolidate_metadata` on session `i` (all its GETs, the installation of the key closure) and any GET
+    through session `i` leave every other session's key function and store as they were, and hand it no GET -/
+theorem C18_consolidate_leaves_other_sessions {ρ : Type} (orig : List Char → List Char) (server : CK.Req → ρ)
+    (p : Sessions.Proc ρ) (i j : Nat) (hij : i ≠ j) (files : List FileIn) :
+    (Sessions.step orig server p (.consolidate i files)).2[j]? = p[j]? ∧
+      Sessions.traceOf j (Sessions.step orig server p (.consolidate i files)).1 = [] ∧
+      ∀ r, (Sessions.step orig server p (.get i r)).2[j]? = p[j]? :=
+  ⟨(Sessions.step_skip orig server p j (.consolidate i files) (by simp [Sessions.concerns, hij])).2.2,
+   (Sessions.step_skip orig server p j (.consolidate i files) (by simp [Sessions.concerns, hij])).1,
+   fun r => (Sessions.step_skip orig server p j (.get i r) (by simp [Sessions.concerns, hij])).2.2⟩
+
+/-- **The bystander reads plainly, all interleaved histories.** A session on which no key closure is installed and
+    which is never consolidated itself (its store may hold anything satisfying the invariant, e.g. be empty) gets for
+    EVERY GET the server's answer, under the unpatched key (no key at all when it is a plain session) — whatever the
+    other sessions of the process read or consolidate in between. Hypotheses as in `C18_cache_transparent_url`:
+    the unpatched key is injective on URLs, the server is a function of the URL. -/
+theorem C18_bystander_session_plain {ρ : Type} (orig : List Char → List Char) (server : CK.Req → ρ)
+    (horig : ∀ a b, orig a = orig b → a = b) (hfun : ∀ u v : CK.Req, u.url = v.url → server u = server v)
+    (p : Sessions.Proc ρ) (evs : List Sessions.Ev) (j : Nat)
+    (hj : ∀ s, p[j]? = some s → s.decls = [] ∧ Sessions.FInv orig server s.store)
+    (hnever : ∀ files, Sessions.Ev.consolidate j files ∉ evs) :
+    ∀ x ∈ (Sessions.run orig server p evs).1, x.1 = j →
+      x.2.resp = server x.2.req ∧ (x.2.key = none ∨ x.2.key = some (Key.orig (orig x.2.req.url))) :=
+  Sessions.run_bystander orig server horig hfun j evs p hj hnever
+
+/-- **The same on the default settings of `create_session`** (`backend="sqlite"`, one cache name: the caching sessions
+    of the process have their own backend objects — own key functions — but ONE database file, `Sessions.FileProc`):
+    the store is filled by every session, also under consolidated keys; a session on which nothing is installed
+    still gets for every GET the unpatched key and the server's answer (it may hit what another session stored under
+    the same URL key; an entry under a normalised key is never its key). -/
+theorem C18_bystander_shared_file {ρ : Type} (orig : List Char → List Char) (server : CK.Req → ρ)
+    (horig : ∀ a b, orig a = orig b → a = b) (hfun : ∀ u v : CK.Req, u.url = v.url → server u = server v)
+    (p : Sessions.FileProc ρ) (evs : List Sessions.Ev) (j : Nat)
+    (hstore : Sessions.FInv orig server p.store) (hj : ∀ ds, p.decls[j]? = some ds → ds = [])
+    (hnever : ∀ files, Sessions.Ev.consolidate j files ∉ evs) :
+    ∀ x ∈ (Sessions.runFile orig server p evs).1, x.1 = j →
+      x.2.resp = server x.2.req ∧ (x.2.key = none ∨ x.2.key = some (Key.orig (orig x.2.req.url))) :=
+  Sessions.runFile_bystander orig server horig hfun j evs p hstore hj hnever
+
+/-- **One backend object for all caching sessions (the arrangement of seed C18-y) does not have the property**:
+    `Sessions.runShared` sends the events of every session through one key function and one store; session 0 is
+    consolidated for `exFiles`, session 1 then reads `t` of the second file whole — and sees something else than it
+    sees alone (the next two examples: the normalised key, a hit, the FIRST file's pre-fetched answer). -/
+theorem C18_shared_backend_refuted :
+    ¬ ∀ (c : Sessions.Sess (List Char)) (evs : List Sessions.Ev) (j : Nat),
+        Sessions.traceOf j (Sessions.runShared id (fun r => r.url) c evs).1 =
+          Sessions.traceOf j (Sessions.runShared id (fun r => r.url) c (evs.filter (Sessions.concerns j))).1 := by
+  intro h
+  have := h (Sessions.fresh true) Sessions.exHist 1
+  revert this
+  decide +kernel
+
+/-! non-vacuity -/
+/-- shared backend object: the bystander's read of `t` from the second file is answered with the first file's array -/
+example : Sessions.traceOf 1 (Sessions.runShared id (fun r => r.url) (Sessions.fresh true) Sessions.exHist).1 =
+    [⟨Sessions.exRead, some (keyAfter id exDecl (dimReq exFileA "t".toList 2)), true, (dimReq exFileA "t".toList 2).url⟩] := by
+  decide +kernel
+/-- the code as it is (own backend objects): unpatched key, a miss, the second file's own answer -/
+example : Sessions.traceOf 1 (Sessions.run id (fun r => r.url) [Sessions.fresh true, Sessions.fresh true] Sessions.exHist).1 =
+    [⟨Sessions.exRead, some (Key.orig Sessions.exRead.url), false, Sessions.exRead.url⟩] := by decide +kernel
+/-- … while the consolidated session itself does share: its own read of the same request is a hit on the pre-fetch;
+    a third session created later and a plain session are bystanders too -/
+example : (Sessions.run id (fun r => r.url) [Sessions.fresh true, Sessions.fresh true, Sessions.fresh false]
+      (Sessions.exHist ++ [.get 0 Sessions.exRead, .create true, .get 3 Sessions.exRead, .get 2 Sessions.exRead, .get 1 Sessions.exRead])).1.drop 3
+    = [(1, ⟨Sessions.exRead, some (Key.orig Sessions.exRead.url), false, Sessions.exRead.url⟩),
+       (0, ⟨Sessions.exRead, some (keyAfter id exDecl (dimReq exFileA "t".toList 2)), true, (dimReq exFileA "t".toList 2).url⟩),
+       (3, ⟨Sessions.exRead, some (Key.orig Sessions.exRead.url), false, Sessions.exRead.url⟩),
+       (2, ⟨Sessions.exRead, none, false, Sessions.exRead.url⟩),
+       (1, ⟨Sessions.exRead, some (Key.orig Sessions.exRead.url), true, Sessions.exRead.url⟩)] := by decide +kernel
+/-- the hypotheses of `C18_bystander_session_plain` hold for session 1 of that process and history -/
+example : ∀ x ∈ (Sessions.run id (fun r : CK.Req => r.url) [Sessions.fresh true, Sessions.fresh true] Sessions.exHist).1, x.1 = 1 →
+    x.2.resp = x.2.req.url ∧ (x.2.key = none ∨ x.2.key = some (Key.orig x.2.req.url)) :=
+  C18_bystander_session_plain id (fun r => r.url) (fun _ _ h => h) (fun _ _ h => h) _ _ 1
+    (by intro s hs; cases hs; exact ⟨rfl, Sessions.finv_nil _ _⟩) (by intro files h; simp [Sessions.exHist] at h)
+/-- one database file: the bystander HITS what the consolidated session stored under the same URL key (the DMR of the
+    first file), with the server's answer; the hypotheses of `C18_bystander_shared_file` hold -/
+example : Sessions.traceOf 1 (Sessions.runFile id (fun r => r.url) ⟨[[], []], []⟩
+      [.consolidate 0 exFiles, .get 1 (dmrReq exFileA), .get 1 Sessions.exRead]).1
+    = [⟨dmrReq exFileA, some (Key.orig (dmrReq exFileA).url), true, (dmrReq exFileA).url⟩,
+       ⟨Sessions.exRead, some (Key.orig Sessions.exRead.url), false, Sessions.exRead.url⟩] := by decide +kernel
+example : ∀ x ∈ (Sessions.runFile id (fun r : CK.Req => r.url) ⟨[[], []], []⟩ Sessions.exHist).1, x.1 = 1 →
+    x.2.resp = x.2.req.url ∧ (x.2.key = none ∨ x.2.key = some (Key.orig x.2.req.url)) :=
+  C18_bystander_shared_file id (fun r => r.url) (fun _ _ h => h) (fun _ _ h => h) _ _ 1 (Sessions.finv_nil _ _)
+    (by intro ds h; cases h; rfl) (by intro files h; simp [Sessions.exHist] at h)
+
+/-! ### transport: content coding, whole and streamed reads -/
+open Pydap.Transport
+
+/-- **Caching never changes the bytes the reader gets, for both read paths.**  Any history of GETs — each with
+    its read path (whole `r.content` / streamed `r.iter_content()`), its `stream=` keyword and the cuts the
+    network makes in the stream this time —, any server answering each request with a header (`none`, `gzip`,
+    a coding without decoder) and a body, any decoder `unz`: when equal keys mean equal answers on the requests
+    of the history (the hypothesis of `runCached_transparent`, discharged for the real keys below), the bytes
+    obtained through the caching session (requests_cache stores the header and the DECODED content and replays
+    them without decoding again) equal the bytes obtained through the plain session, read by read. -/
+theorem C18_cached_equals_plain {α κ : Type} [DecidableEq κ] (unz : Bytes → Bytes) (key : α → κ) (srv : α → Served)
+    (hist : List (Get α))
+    (hks : ∀ u1 ∈ hist.map (·.req), ∀ u2 ∈ hist.map (·.req), key u1 = key u2 → srv u1 = srv u2) :
+    readsCached unz key srv hist = readsPlain unz srv hist := by
+  rw [readsCached_eq unz key srv hist hks, readsPlain_eq]
+
+/-- the same with the unpatched keys (injective on the requests of the history): no hypothesis on the server -/
+theorem C18_cached_equals_plain_url {α κ : Type} [DecidableEq κ] (unz : Bytes → Bytes) (key : α → κ)
+    (srv : α → Served) (hist : List (Get α))
+    (hinj : ∀ u1 ∈ hist.map (·.req), ∀ u2 ∈ hist.map (·.req), key u1 = key u2 → u1 = u2) :
+    readsCached unz key srv hist = readsPlain unz srv hist :=
+  C18_cached_equals_plain unz key srv hist (fun u1 h1 u2 h2 hk => by rw [hinj u1 h1 u2 h2 hk])
+
+/-- the same with the consolidated keys of `patch_session_for_shared_dap_cache`, under the hypotheses of
+    `C18_cache_transparent_customKey` (which carries the cache part) stated for the wire server -/
+theorem C18_cached_equals_plain_customKey (unz : Bytes → Bytes) (orig : List Char → List Char)
+    (horig : ∀ a b, orig a = orig b → a = b) (shared : List (List Char)) (base : Option Base)
+    (srv : CK.Req → Served) (hist : List (Get CK.Req))
+    (hfun : ∀ r1 ∈ hist.map (·.req), ∀ r2 ∈ hist.map (·.req), r1.url = r2.url → srv r1 = srv r2)
+    (hshared : ∀ r1 ∈ hist.map (·.req), ∀ r2 ∈ hist.map (·.req), SharedDim shared base r1 r2 → srv r1 = srv r2) :
+    readsCached unz (customKey orig shared base) srv hist = readsPlain unz srv hist := by
+  rw [readsPlain_eq]
+  refine readsCached_of_transparent unz _ srv hist
+    (C18_cache_transparent_customKey orig horig shared base (storedFor unz srv) _ ?_ ?_)
+  · intro r1 h1 r2 h2 e; simp only [storedFor, decoded, hfun r1 h1 r2 h2 e]
+  · intro r1 h1 r2 h2 e; simp only [storedFor, decoded, hshared r1 h1 r2 h2 e]
+
+/-- **Whole = join of the streamed chunks = the served payload, gzip or not, plain or cached.**  Under
+    `unz (z b) = b` (the only fact about gzip, a hypothesis), for a server that answers every request with its
+    payload either as it is or gzip-coded with the header set: on a response of a plain session, whatever the
+    cuts and `stream=`, `r.content` and the concatenation of `r.iter_content()` are the payload; every read of
+    every history through the caching session is the payload; and on the application path (`net.GET` +
+    `decode_content()`), the whole-body readers and `app_iter` give the payload too. -/
+theorem C18_read_paths_agree {α κ : Type} [DecidableEq κ] (z unz : Bytes → Bytes) (hz : ∀ b, unz (z b) = b)
+    (payload : α → Bytes) (gz : α → Bool) :
+    (∀ (u : α) (streamKw : Bool) (cuts : List Nat),
+        readWhole (requestsSend unz streamKw ⟨(serve z payload gz u).enc, (serve z payload gz u).body, cuts⟩) = payload u ∧
+        readStream (requestsSend unz streamKw ⟨(serve z payload gz u).enc, (serve z payload gz u).body, cuts⟩) = payload u) ∧
+    (∀ (key : α → κ) (hist : List (Get α)),
+        (∀ u1 ∈ hist.map (·.req), ∀ u2 ∈ hist.map (·.req), key u1 = key u2 → payload u1 = payload u2 ∧ gz u1 = gz u2) →
+        readsCached unz key (serve z payload gz) hist = hist.map (fun g => payload g.req)) ∧
+    (∀ u : α, ∃ r, appGet unz (serve z payload gz u) = .ok r ∧ appWhole unz r = payload u ∧ appStream r = payload u) := by
+  have hdec : ∀ u, decoded unz (serve z payload gz) u = payload u := by
+    intro u
+    simp only [decoded, serve]
+    cases gz u <;> simp [decodeBody, hz]
+  refine ⟨?_, ?_, ?_⟩
+  · intro u s cuts
+    exact ⟨(read_send unz .whole s _).trans (hdec u), (read_send unz .stream s _).trans (hdec u)⟩
+  · intro key hist hk
+    rw [readsCached_eq unz key _ hist (fun u1 h1 u2 h2 e => by simp only [serve, (hk u1 h1 u2 h2 e).1, (hk u1 h1 u2 h2 e).2])]
+    simp only [hdec]
+  · intro u
+    simp only [serve]
+    cases gz u
+    · exact ⟨_, rfl, by simp [appWhole], by simp [appStream, join]⟩
+    · exact ⟨_, rfl, by simp [appWhole, hz], by simp [appStream, join, hz]⟩
+
+/-- **The content is not vacuous: reading the urllib3 object instead of `iter_content()` breaks it** (the
+    seeded change C18-w).  With the toy codec `z b = 0x1f :: b`, `unz = tail` (so `unz (z b) = b`), injective keys
+    and a gzip-coding server: the second streamed read of a URL (a cache hit: `r.raw` is a `CachedHTTPResponse`
+    that never decodes) hands the reader the coded bytes; the plain session hands it the payload. -/
+theorem C18_raw_stream_refuted :
+    ¬ (∀ (z unz : Bytes → Bytes), (∀ b, unz (z b) = b) → ∀ (payload : Nat → Bytes) (hist : List (Get Nat)),
+        readsCachedRaw unz (fun u : Nat => u) (serve z payload (fun _ => true)) hist
+          = readsPlain unz (serve z payload (fun _ => true)) hist) := by
+  intro h
+  have := h (fun b => 0x1f :: b) List.tail (fun _ => rfl) (fun _ => [7, 8]) [⟨0, .stream, true, [1]⟩, ⟨0, .stream, true, []⟩]
+  revert this
+  decide
+
+/-! #### non-vacuity (toy codec `z b = 0x1f :: b`, `unz = tail`) -/
+/-- a history mixing whole and streamed reads, `stream=` on and off, different cuts, two URLs, one gzip-coded:
+    misses and hits, and every read is the payload -/
+example : (runTrace (fun g : Get Nat => g.req) (storeOf List.tail (serve (fun b => 0x1f :: b) (fun u => [u.toUInt8, 9, 9]) (· == 1))) []
+      [⟨1, .stream, true, [1, 1]⟩, ⟨2, .whole, false, []⟩, ⟨1, .whole, false, [0, 2]⟩, ⟨1, .stream, true, [5]⟩, ⟨2, .stream, true, [2]⟩]).map (·.1)
+      = [false, false, true, true, true] ∧
+    readsCached List.tail (fun u : Nat => u) (serve (fun b => 0x1f :: b) (fun u => [u.toUInt8, 9, 9]) (· == 1))
+      [⟨1, .stream, true, [1, 1]⟩, ⟨2, .whole, false, []⟩, ⟨1, .whole, false, [0, 2]⟩, ⟨1, .stream, true, [5]⟩, ⟨2, .stream, true, [2]⟩]
+      = [[1, 9, 9], [2, 9, 9], [1, 9, 9], [1, 9, 9], [2, 9, 9]] := by decide
+/-- the pieces really are pieces: three chunks from the unread stream, one byte per step once consumed -/
+example : (requestsSend List.tail true ⟨.gzip, [0x1f, 1, 2, 3, 4], [1, 2]⟩).iterContent = [[1], [2, 3], [4]] ∧
+    (requestsSend List.tail false ⟨.gzip, [0x1f, 1, 2, 3, 4], [1, 2]⟩).iterContent = [[1], [2], [3], [4]] ∧
+    (fromStored (toStored (requestsSend List.tail true ⟨.gzip, [0x1f, 1, 2, 3, 4], [1, 2]⟩))) = ⟨.gzip, some [1, 2, 3, 4], [], true⟩ := by
+  decide
+/-- the hypotheses of `C18_cached_equals_plain` / `C18_read_paths_agree` hold on such a history -/
+example : readsCached List.tail (fun u : Nat => u) (serve (fun b => 0x1f :: b) (fun u => [u.toUInt8]) (· == 1))
+      [⟨1, .stream, true, [1]⟩, ⟨1, .whole, false, []⟩]
+    = readsPlain List.tail (serve (fun b => 0x1f :: b) (fun u => [u.toUInt8]) (· == 1)) [⟨1, .stream, true, [1]⟩, ⟨1, .whole, false, []⟩] :=
+  C18_cached_equals_plain_url _ _ _ _ (fun _ _ _ _ h => h)
+/-- a coding webob does not know raises on the application path; the requests path passes it through -/
+example : appGet List.tail ⟨.other, [1]⟩ = .error .valueError ∧
+    readWhole (requestsSend List.tail false ⟨.other, [1, 2], [1]⟩) = [1, 2] := ⟨rfl, by decide⟩
+/-- a non-injective key does change the bytes (why `hks` is there) -/
+example : readsCached List.tail (fun _ : Nat => 0) (serve (fun b => 0x1f :: b) (fun u => [u.toUInt8]) (fun _ => true))
+      [⟨1, .whole, false, []⟩, ⟨2, .whole, false, []⟩]
+    ≠ readsPlain List.tail (serve (fun b => 0x1f :: b) (fun u => [u.toUInt8]) (fun _ => true)) [⟨1, .whole, false, []⟩, ⟨2, .whole, false, []⟩] := by
+  decide
 
 end Pydap.C18
